@@ -12,6 +12,8 @@ CONSTANTS
     MaxLifecycle = 2
     Dedup = TRUE
     FailCleansUp = FALSE
+    MaxDeaths = 0
+    StopAtFirstError = FALSE
 INVARIANTS
     TypeOK
     TableConsistent
